@@ -555,6 +555,12 @@ func (fr *Frame) inline(f *ssa.Function, cl *closureVal, cc *ssa.CallCommon, arg
 		} else {
 			for i, fv := range f.FreeVars {
 				b := cl.bindings[i]
+				if a, ok := b.(*ssa.Alloc); ok {
+					if child.fvAlloc == nil {
+						child.fvAlloc = map[*ssa.FreeVar]*ssa.Alloc{}
+					}
+					child.fvAlloc[fv] = a
+				}
 				if pfv, ok := b.(*ssa.FreeVar); ok {
 					if a := cl.parent.capturedAlloc(pfv); a != nil {
 						if child.fvAlloc == nil {
@@ -649,6 +655,10 @@ func (fr *Frame) applyContract(fcx *FuncContract, f *ssa.Function, sig *types.Si
 			}
 			e.bind[fmt.Sprintf("arg%d", j)] = tv
 		}
+	}
+	if cc != nil && !cc.IsInvoke() && cc.StaticCallee() == nil {
+		// call through a function value: the contract may speak about the value itself
+		e.bind["fn"] = TV{T: fr.val(cc.Value), Ty: cc.Value.Type()}
 	}
 	cname := firstOr(names, fcx.Name)
 	ordKey := "pre:" + cname
